@@ -29,7 +29,17 @@ pub fn check_net(net: &Net, component: &str, st: &mut Stats) {
     st.transitions += 2;
     st.traces += 1;
     let pairs: Vec<(usize, usize)> = net.edges.iter().map(|e| (e.0, e.1)).collect();
-    let want = scc_classes(net.n, &pairs);
+    // reference: the cubic closure for small graphs (compared there with the linear reference as well), the linear one beyond
+    let want = if net.n <= 64 {
+        let w = scc_classes(net.n, &pairs);
+        if crate::refmodel::graph::scc_classes_linear(net.n, &pairs) != w {
+            st.violation("harness", "references_agree", net.size(), || "the two reference implementations disagree".to_string(), || json!({"net": net}));
+            return;
+        }
+        w
+    } else {
+        crate::refmodel::graph::scc_classes_linear(net.n, &pairs)
+    };
     if want.len() > 1 && want.iter().any(|c| c.len() > 1) {
         st.nontrivial += 1;
     }
@@ -130,6 +140,20 @@ fn family_nets() -> Vec<(String, Net)> {
         }
         out.push((format!("ladder{}", n), Net { n, edges: e, xy: None }));
     }
+    // long one-way structures (the analysis recurses along them): numbered along and against the edges
+    for n in [1000usize, 1500, 2500] {
+        out.push((format!("chain{}", n), Net { n, edges: (0..n - 1).map(|i| (i, i + 1, 1.0)).collect(), xy: None }));
+        out.push((format!("chain_backwards{}", n), Net { n, edges: (0..n - 1).map(|i| (i + 1, i, 1.0)).collect(), xy: None }));
+        let mut e: Vec<(usize, usize, f64)> = (0..n - 1).map(|i| (i, i + 1, 1.0)).collect();
+        e.push((n - 1, n - 3, 1.0));
+        out.push((format!("chain_into_3cycle{}", n), Net { n, edges: e, xy: None }));
+        out.push((format!("ring{}", n), Net { n, edges: (0..n).map(|i| (i, (i + 1) % n, 1.0)).collect(), xy: None }));
+        let h = n / 2;
+        let mut e: Vec<(usize, usize, f64)> = (0..h).map(|i| (i, (i + 1) % h, 1.0)).collect();
+        e.extend((h..n).map(|i| (i, if i + 1 < n { i + 1 } else { h }, 1.0)));
+        e.push((h - 1, h, 1.0));
+        out.push((format!("two_rings_bridge{}", n), Net { n, edges: e, xy: None }));
+    }
     out
 }
 
@@ -169,18 +193,30 @@ pub fn run(tier: Tier) -> i32 {
         }
     });
     total.merge(st);
-    for (name, net) in family_nets() {
-        let mut st = Stats::new();
-        check_net(&net, "families", &mut st);
-        st.sample(6, || json!({"family": name, "n": net.n, "m": net.m()}));
-        total.merge(st);
+    // the families run on a thread with a large stack: the analysis under test recurses once per vertex of a chain
+    let fam = std::thread::Builder::new().stack_size(256 << 20).spawn(|| {
+        let mut total = Stats::new();
+        for (name, net) in family_nets() {
+            let mut st = Stats::new();
+            check_net(&net, "families", &mut st);
+            st.sample(6, || json!({"family": name, "n": net.n, "m": net.m()}));
+            total.merge(st);
+        }
+        total
+    });
+    match fam.map(|h| h.join()) {
+        Ok(Ok(st)) => total.merge(st),
+        other => {
+            println!("MACHINERY-ERROR the family thread failed: {:?}", other.map(|r| r.is_ok()));
+            return 2;
+        }
     }
     finish(
         &info,
         total,
-        "state = one labelled digraph (self loops allowed); all 2^(n*n) digraphs for n=0..N, all multiplicity<=2 multigraphs on n=3, plus structured families up to 60 vertices; transition = one call of the component analysis on the real code; non-trivial = more than one class and some class with > 1 vertex",
+        "state = one labelled digraph (self loops allowed); all 2^(n*n) digraphs for n=0..N, all multiplicity<=2 multigraphs on n=3, plus structured families up to 60 vertices and long one-way structures (chains along / against the numbering, chain into a cycle, rings, bridged rings) of 1000, 1500 and 2500 vertices; transition = one call of the component analysis on the real code; non-trivial = more than one class and some class with > 1 vertex",
         true,
-        json!({"max_n_exhaustive": max_n, "graphs_n": (0..=max_n).map(|n| 1u64 << (n*n)).collect::<Vec<_>>(), "families_up_to": 60}),
+        json!({"max_n_exhaustive": max_n, "graphs_n": (0..=max_n).map(|n| 1u64 << (n*n)).collect::<Vec<_>>(), "families_up_to": 2500}),
         vec![
             "oracle: Floyd-Warshall mutual reachability".into(),
             "recursion depth of the DFS is not explored beyond 60 vertices (stack overflow on ~1e5-vertex chains is out of bound)".into(),
